@@ -44,7 +44,7 @@ ASSUMPTIONS = [
 KINDS = ("supervised", "semi", "knn", "unsup", "unsup_prop")
 
 
-EXPECTED_PROBES = ['training_identifiers_unlike_positions', 'non_contiguous_arrays', 'distance_matrix_unrelated_to_features', 'query_of_overflowing_magnitude', 'non_float64_features', 'index_arrays_passed_without_precomputed_distances', 'batch_longer_than_training_set', 'duplicates_inside_one_batch', 'model_', 'position_ge1_is_valid_training_index', 'query_equals_training_sample', 'query_raises_consistently', 'successful_predict_after_abort']
+EXPECTED_PROBES = ['irrelevant_public_call_between_predictions', 'training_identifiers_unlike_positions', 'non_contiguous_arrays', 'distance_matrix_unrelated_to_features', 'query_of_overflowing_magnitude', 'non_float64_features', 'index_arrays_passed_without_precomputed_distances', 'batch_longer_than_training_set', 'duplicates_inside_one_batch', 'model_', 'position_ge1_is_valid_training_index', 'query_equals_training_sample', 'query_raises_consistently', 'successful_predict_after_abort']
 
 
 def arms(tier):
@@ -146,8 +146,11 @@ def gen_case(rng, arm, tier, k=0):
             ops.append(["abort", batch, rng.randint(1, 3 * n)])
         elif r < 0.85:
             ops.append(["predict", batch])
-        elif r < 0.93:
+        elif r < 0.91:
             ops.append(["getdist"])
+        elif r < 0.96:
+            # public knobs and bookkeeping calls that a fitted model's predictions must not depend on
+            ops.append(["knob", rng.choice(("max_k", "min_k", "distance_same", "mark_nodes", "accuracy")), rng.randint(1, 9)])
         else:
             ops.append(["save"])
     case["ops"] = ops
@@ -382,6 +385,24 @@ def run_case(case):
                 lib_call("get_distances", m.get_distances)
                 log.add("getdist")
                 norm.append(("getdist",))
+            elif kindop == "knob":
+                out.steps += 1
+                try:
+                    if op[1] == "max_k" and hasattr(m, "max_k"):
+                        m.max_k = max(op[2], getattr(m, "min_k", 1))
+                    elif op[1] == "min_k" and hasattr(m, "min_k"):
+                        m.min_k = max(1, min(op[2], m.max_k))
+                    elif op[1] == "distance_same":
+                        m.distance = m.distance
+                    elif op[1] == "mark_nodes" and kind in ("supervised", "semi"):
+                        m.subgraph.mark_nodes(op[2] % len(m.subgraph.nodes))
+                    elif op[1] == "accuracy":
+                        B.general.opf_accuracy_per_label(iarr(case["Y"]), iarr(case["Y"]))
+                    bump(out.probes, "irrelevant_public_call_between_predictions")
+                except Exception as exc:  # noqa: BLE001
+                    lib_call("knob " + op[1], _reraise, exc)
+                log.add("knob", op[1], op[2])
+                norm.append(("knob", op[1]))
             elif kindop == "save":
                 out.steps += 1
                 if scratch is None:
